@@ -121,6 +121,38 @@ def add_two_entry_cycle(rng, spec):
     return spec
 
 
+def add_interlocking_cycles(rng, spec):
+    """Motif: a chain of 2-cycles X0 <-> X1 <-> ... <-> Xm (two cycles share each inner node), a choice below one of the
+    nodes, and options (of one or two choices) that enter the component at different nodes. Generic shape for loop
+    handling in traversals: whichever node is entered, everything below every node of the component is derived."""
+    spec = copy.deepcopy(spec)
+    base = max(int(n[1:]) for n in spec['nodes']) + 1
+    m = rng.choice([2, 2, 3])
+    xs = [f'N{base + i}' for i in range(m + 1)]
+    extra = [f'N{base + m + 1 + i}' for i in range(4)]
+    spec['nodes'] += xs + extra
+    edges = []
+    for a, b in zip(xs, xs[1:]):
+        edges += [[a, b], [b, a]]
+    rng.shuffle(edges)
+    spec['derive'] += edges
+    n = len(spec['sel'])
+    host = spec['start'][0]
+    entries = rng.sample(xs, rng.randint(2, len(xs)))
+    if rng.random() < 0.5:
+        opts = entries + [extra[0]]
+        rng.shuffle(opts)
+        spec['sel'].append([f'L{n}', host, opts])
+    else:
+        spec['sel'].append([f'L{n}', host, [entries[0], extra[0]]])
+        spec['sel'].append([f'L{n + 1}', host, entries[1:] + [extra[1]]])
+    below = rng.choice(xs)
+    spec['sel'].append([f'L{n + 2}', below, [extra[2]] if rng.random() < 0.4 else [extra[2], extra[3]]])
+    used = {o for c in spec['sel'] for o in c[2]}
+    spec['nodes'] = [x for x in spec['nodes'] if x not in extra or x in used]
+    return spec
+
+
 def add_reconvergent(rng, spec):
     """Motif: reconvergent derivation paths A -> P -> K, A -> Q -> K with a nested choice below K, and two further options
     (of other choices) that enter the diamond at K, P or Q. Acyclic. Generic shape for traversal caches keyed by node:
